@@ -178,6 +178,56 @@ theorem ethIntake_continues (frame : List Nat) : ∃ r, ethIntake frame = some (
     obtain ⟨b, hb⟩ := slice_some frame 0 6 (by omega)
     simp [ht, ha, hb]
 
+/-- `fdbased.dispatchLoop` over the frames the device yields, in order: `dispatch` is called again exactly while it
+answers `cont = true` without error; a fault (`none`) or `cont = false` ends the loop and the frames after it are
+never read. The result lists what was handed to the network dispatcher per frame read. -/
+def dispatchLoop : List (List Nat) → Option (List (Option (Nat × List Nat)))
+  | [] => some []
+  | f :: fs =>
+    match ethIntake f with
+    | none => none
+    | some (false, _) => some []
+    | some (true, r) => (dispatchLoop fs).map (r :: ·)
+
+/-- **C07 (link intake, every history)**: whatever sequence of frames the device yields -- any number, any lengths,
+runts anywhere in it -- the loop never faults and never stops: every frame is read, each frame longer than a link
+header is handed on with its EtherType and payload, and each shorter one is dropped. (Before the repair 7b53298 the
+first runt ended the loop: `dispatchLoop [[], f] = some []` in that reading.) -/
+theorem dispatchLoop_serves_every_frame (fs : List (List Nat)) :
+    ∃ rs, dispatchLoop fs = some rs ∧ rs.length = fs.length ∧
+      ∀ i (h : i < fs.length) (h' : i < rs.length), (rs[i].isSome = true ↔ 14 < fs[i].length) := by
+  induction fs with
+  | nil => exact ⟨[], rfl, rfl, fun i h => absurd h (Nat.not_lt_zero _)⟩
+  | cons f fs ih =>
+    obtain ⟨rs, hrs, hlen, hall⟩ := ih
+    obtain ⟨r, hr⟩ := ethIntake_continues f
+    have hr' : (r.isSome = true ↔ 14 < f.length) := by
+      unfold ethIntake at hr
+      split at hr
+      · rename_i hle
+        simp only [pure, Option.some.injEq, Prod.mk.injEq, true_and] at hr
+        subst hr
+        simp; omega
+      · rename_i hgt
+        obtain ⟨t, ht⟩ := rd16_some f 12 (by omega)
+        obtain ⟨a, ha⟩ := slice_some f 6 12 (by omega)
+        obtain ⟨b, hb⟩ := slice_some f 0 6 (by omega)
+        simp [ht, ha, hb] at hr
+        subst hr
+        simp; omega
+    refine ⟨r :: rs, by simp [dispatchLoop, hr, hrs], by simp [hlen], ?_⟩
+    intro i h h'
+    cases i with
+    | zero => simpa using hr'
+    | succ j =>
+      simp only [List.getElem_cons_succ]
+      exact hall j (by simpa using h) (by simpa using h')
+
+/-- non-vacuity: an empty read, a 14-byte runt and a 15-byte frame, in this order: all three are read, only the last is
+handed on -/
+example : dispatchLoop [[], List.replicate 14 0, List.replicate 12 0 ++ [8, 0, 7]] = some [none, none, some (2048, [7])] := by
+  decide
+
 /-- ARP packets are only read after the validity check, which guarantees all 28 bytes -/
 theorem arp_read_after_guard (a : List Nat) (h : Model.Header.arpIsValid a = true) : 28 ≤ a.length := by
   unfold Model.Header.arpIsValid at h
